@@ -34,6 +34,7 @@ type DeclCfg struct {
 	PEnv         int
 	PEnvDelim    int
 	PChoices     int
+	PLongChoices int // % of the choice lists that have 8-20 entries
 	POptional    int
 	PHidden      int
 	PHiddenGrp   int
@@ -287,7 +288,7 @@ func (n *namer) genCmdBody(c *Cmd) {
 			}
 			sc.Hidden = r.Chance(cfg.PHiddenCmd, 100)
 			if r.Chance(cfg.PDesc, 100) {
-				sc.Desc = fmt.Sprintf("cd%03d command text", id) + r.Pick([]string{"", "", "", " 100%", " %v"})
+				sc.Desc = fmt.Sprintf("cd%03d command text", id) + r.Pick([]string{"", "", "", " 100%", " %v", " (an alias)", " removes aliases", " help topic", " default command"})
 			}
 			if r.Chance(cfg.PExec, 100) {
 				sc.Exec = true
@@ -476,7 +477,7 @@ func (n *namer) genOpt(g *Grp, c *Cmd) *Opt {
 		o.Base = 16
 	}
 	if r.Chance(cfg.PDesc, 100) {
-		o.Desc = fmt.Sprintf("d%03d option text", id) + r.Pick([]string{"", "", "", " 100%", " %d items", " 5%s", " 50%%"})
+		o.Desc = fmt.Sprintf("d%03d option text", id) + r.Pick([]string{"", "", "", " 100%", " %d items", " 5%s", " 50%%", ", defaults to none", " (Defaults to the first)", " default: see below", " alias of the other one", " see --help", " [$HOME]", " one of [a|b]"})
 	}
 	if r.Chance(cfg.PValueName, 100) && !t.IsFlag() {
 		o.ValueName = fmt.Sprintf("V%03d", id)
@@ -485,6 +486,9 @@ func (n *namer) genOpt(g *Grp, c *Cmd) *Opt {
 	if !t.IsFlag() {
 		if r.Chance(cfg.PChoices, 100) && !t.IsFunc() && t.W != WMap {
 			nc := r.Range(1, 4)
+			if cfg.PLongChoices > 0 && r.Chance(cfg.PLongChoices, 100) {
+				nc = r.Range(8, 20) // a long list of allowed values
+			}
 			seen := map[string]bool{}
 			for i := 0; i < nc; i++ {
 				c := GenScalarText(r, t.K, o.Base, i)
